@@ -174,7 +174,7 @@ func (c *c19) varValues(v ssa.Value) []ssa.Value {
 var c19inclLen = map[string]string{"incl_len": "pcap", "capture_packet_length": "pcapng"}
 
 func (c *c19) ruleFeed() {
-	ru := c.r.Rule("C19.feed", "every capture record is fed through the link type table with the capture's own link type (pcap: header 'network'; pcapng: the section's interface table, filled in order of appearance from 'link_type'), the bytes of the included length at the current position, and the capture's flow decoder; the call happens for every record of a known link type and only for those; the bytes fed are exactly those of the record's packet field (same position, same length)", 15)
+	ru := c.r.Rule("C19.feed", "every capture record is fed through the link type table with the capture's own link type (pcap: header 'network'; pcapng: the section's interface table, filled in order of appearance from 'link_type'), the bytes of the included length at the current position, and the capture's flow decoder; the call happens for every record of a known link type and only for those; the bytes fed are exactly those of the record's packet field (same position, same length); an error returned for one packet does not abort the decode", 17)
 	g := c.tableGlobal(ru)
 	if g == nil {
 		return
@@ -279,6 +279,7 @@ func (c *c19) ruleFeed() {
 		if why == "" && posCall != nil {
 			c.feedAtPacket(ru, key, s, posCall, lenArg)
 		}
+		c.feedErrorTolerated(ru, key, s)
 		// decoder
 		dv := c.originTW(a[0])
 		dcall, isNew := dv.(*ssa.Call)
